@@ -392,8 +392,13 @@ class C04(Engine):
 			cases.append({'pool': pool, 'flavour': 'interactive', 'cache': 'lib', 'ops': [S(texts[-2]), S(texts[len(mods) - 1]), S(texts[-2]), S(texts[0])]})
 			same_shape = [t for t in texts if t.startswith('class Alpha') or t.startswith('class Beta') or t.startswith('class Gamma')]
 			cases.append({'pool': pool, 'flavour': 'interactive', 'cache': 'lib', 'ops': [S(same_shape[0]), S(same_shape[1]), S(same_shape[2]), S(same_shape[0])]})
-		ex = pools.example_pool()
+		# prefix-related sibling modules: unloading src.a must not take anything of src.ab / src.a_b with it (and the other way round)
+		fan = pools.gen_pool(random.Random(9), shape='fan', n_variants=3, allow_invalid=False, names=['src.d', 'src.ab', 'src.a', 'src.a_b'], swap_p=0.0)
 		T = lambda m, **kw: {'op': 'transpile', 'm': m, **kw}
+		for victim, others in (('src.a', ['src.ab', 'src.a_b']), ('src.ab', ['src.a', 'src.a_b'])):
+			for cache in (False, 'lib'):
+				cases.append({'pool': fan, 'flavour': 'runner', 'cache': cache, 'ops': [T('src.d'), {'op': 'unload', 'm': victim}] + [T(o) for o in others] + [T('src.d'), T(victim)]})
+		ex = pools.example_pool()
 		cases.append({'pool': ex, 'flavour': 'runner', 'cache': 'warm', 'ops': [T('example.json'), T('example.FW.string', isolate=True), T('example.json'), {'op': 'unload', 'm': 'example.FW.string'}, T('example.json')]})
 		cases.append({'pool': ex, 'flavour': 'runner', 'cache': 'lib', 'ops': [{'op': 'runner', 'order': ['example.FW.string', 'example.json', 'example.json']}, T('example.json')]})
 		return cases
